@@ -21,7 +21,7 @@ func init() {
 	Registry["C01"] = &Oracle{Run: runC01, Lines: linesMsg(checkRoundTrip, nil)}
 	Registry["C02"] = &Oracle{Run: runC02, Lines: linesC02}
 	Registry["C08"] = &Oracle{Run: runC08, Lines: linesC08}
-	Registry["C19"] = &Oracle{Run: runC19, Lines: linesMsg(checkAttribution, nil)}
+	Registry["C19"] = &Oracle{Run: runC19, Lines: linesMsg(checkAttribution, checkErrorPath)}
 }
 
 type T = impl.Tree
@@ -750,6 +750,10 @@ func checkAttribution(rep *Reporter, specT, msgT *T) {
 					rep.Viol("truncation is attributed to the wrong data element", ul, fmt.Sprintf("cut at %d inside element %d [%d,%d), reported path %v", o, rg.id, rg.start, rg.end, path))
 					continue
 				}
+				if d := pathShortfall(err, path); d != "" {
+					rep.Viol("the field-id path stops above the subfield at which decoding stopped", ul, d)
+					continue
+				}
 				// elements before the failing one stay readable with their decoded values
 				for _, prev := range ranges {
 					if prev.id >= rg.id || prev.id == 1 {
@@ -790,9 +794,69 @@ func runC19(t gen.Tier, r *gen.Rng, rep *Reporter) {
 			continue
 		}
 		checkAttribution(rep, spec, m)
+		// every single-byte corruption of the valid encoding (length prefixes among them)
+		if sp, ok := impl.MsgSpecOfTree(spec); ok && i%4 == 0 {
+			mm := iso8583.NewMessage(sp)
+			if impl.SetMsg(mm, m) {
+				if wire, err := mm.Pack(); err == nil && len(wire) <= 300 {
+					for pos := range wire {
+						for _, nb := range []byte{wire[pos] + 1, 0xFF, '9'} {
+							if nb != wire[pos] {
+								c := append([]byte{}, wire...)
+								c[pos] = nb
+								checkErrorPath(rep, spec, c)
+							}
+						}
+					}
+				}
+			}
+		}
 	}
 	emitDist(rep, g)
 	rep.Sample("M <spec> unpack <valid message cut at offset o> => UnpackError, RawMessage = input, FieldIDs()[0] = element owning o, earlier elements readable")
+}
+
+// pathShortfall compares the field-id path of an UnpackError with the implementation's own
+// account of where decoding stopped: every composite level at which a subfield failed says
+// "failed to unpack subfield <tag>" in the error text (except a tag that could not be read:
+// "subfield Tag"), and the property wants the path to continue with those subfield tags.
+// Returns a description when the path has fewer subfield tags than the text has levels.
+func pathShortfall(err error, path []string) string {
+	txt := err.Error()
+	levels := strings.Count(txt, "failed to unpack subfield ") - strings.Count(txt, "failed to unpack subfield Tag: ")
+	if levels > len(path)-1 {
+		return fmt.Sprintf("the failure lies %d composite level(s) deep (%q) but FieldIDs() = %v", levels, txt, path)
+	}
+	return ""
+}
+
+// checkErrorPath: any bytes; if Unpack fails the error is an UnpackError carrying the input
+// and a path that reaches the subfield at which decoding stopped.
+func checkErrorPath(rep *Reporter, specT *T, data []byte) {
+	ul := fmt.Sprintf("M %s unpack %s", specT.String(), impl.Hex(data))
+	safely(rep, ul, func() {
+		spec, ok := impl.MsgSpecOfTree(specT)
+		if !ok {
+			return
+		}
+		m := iso8583.NewMessage(spec)
+		err := m.Unpack(data)
+		rep.Case(ul)
+		if err == nil {
+			return
+		}
+		var ue *iso8583errors.UnpackError
+		if !errors.As(err, &ue) {
+			rep.Viol("Unpack failure is not an UnpackError", ul, err.Error())
+			return
+		}
+		if !bytes.Equal(ue.RawMessage, data) {
+			rep.Viol("UnpackError.RawMessage is not the input", ul, "")
+		}
+		if d := pathShortfall(err, ue.FieldIDs()); d != "" {
+			rep.Viol("the field-id path stops above the subfield at which decoding stopped", ul, d)
+		}
+	})
 }
 
 // ---------------------------------------------------------------- re-examination of protocol lines
